@@ -1,0 +1,16 @@
+//go:build verif
+
+package message
+
+// Verification hook of engine E8 (build tag "verif" only; add-only): exports the unexported buildConfigMap of the
+// message receiver.  Nothing here changes behaviour of existing code.
+
+import (
+	"github.com/confluentinc/confluent-kafka-go/kafka"
+)
+
+// ReceiverBuildConfigMapE8V builds a zero-value KafkaMessageReceiver and calls its buildConfigMap.
+func ReceiverBuildConfigMapE8V(params map[string]string) (*kafka.ConfigMap, error) {
+	r := &KafkaMessageReceiver{}
+	return r.buildConfigMap(params)
+}
